@@ -5,6 +5,7 @@ import (
 	"hash/fnv"
 	"regexp"
 	"sort"
+	"strings"
 	"time"
 )
 
@@ -74,7 +75,7 @@ func (c *Ctx) Logf(format string, a ...any) {
 		c.traceDrop++
 		return
 	}
-	c.Trace = append(c.Trace, fmt.Sprintf("%d: ", c.Events)+fmt.Sprintf(format, a...))
+	c.Trace = append(c.Trace, fmt.Sprintf("%d: ", c.Events)+strings.Join(strings.Fields(fmt.Sprintf(format, a...)), " "))
 }
 
 func (c *Ctx) Fault(kind string) { c.Faults[kind]++ }
@@ -159,4 +160,13 @@ func sortedKeys(m map[string]int) []string {
 	}
 	sort.Strings(ks)
 	return ks
+}
+
+// IsSimPanic reports whether a recovered value is one of the kernel's own control-flow panics.
+func IsSimPanic(r any) bool {
+	switch r.(type) {
+	case violationPanic, crossAbort, HarnessError:
+		return true
+	}
+	return false
 }
